@@ -62,6 +62,49 @@ Qed.
 Corollary pcm_no_ub v : I16_MIN <= v <= I16_MAX -> f32_to_i16 (i16_to_f32 v) <> None.
 Proof. intros H. rewrite (pcm_roundtrip v H). discriminate. Qed.
 
+(** * The float32 sample is THE binary32 number nearest to v / 32767
+    Independent of [SFdiv]'s own correctness: an integer-only check, by complete
+    enumeration, that the result is a normal 24-bit float [+-m * 2^e] with
+        | m * 2^e - v / 32767 |  <  2^e / 2      (half a unit in the last place)
+    scaled by 32767 * 2^(-e) to stay in Z.  (32767 is odd, so a tie cannot occur and
+    the nearest value is unique.) *)
+Definition f32_nearest_ok (v : Z) : bool :=
+  match i16_to_f32 v with
+  | S754_zero _ => v =? 0
+  | S754_finite s m e =>
+      (2 ^ 23 <=? Zpos m) && (Zpos m <? 2 ^ 24) && (e <? 0) && (-149 <=? e) &&
+      (2 * Z.abs ((if s then Zneg m else Zpos m) * I16_MAX - v * 2 ^ (- e)) <? I16_MAX)
+  | _ => false
+  end.
+
+Lemma f32_nearest_all : forallb f32_nearest_ok (zrange I16_MIN 65536) = true.
+Proof. vm_compute. reflexivity. Qed.
+
+Theorem pcm_f32_nearest v : I16_MIN <= v <= I16_MAX -> f32_nearest_ok v = true.
+Proof.
+  intros Hv.
+  assert (Hin : In v (zrange I16_MIN 65536)).
+  { exact (proj2 (zrange_In I16_MIN 65536 v) ltac:(unfold I16_MIN, I16_MAX in *; lia)). }
+  exact (proj1 (forallb_forall f32_nearest_ok (zrange I16_MIN 65536)) f32_nearest_all v Hin).
+Qed.
+
+Theorem pcm_f32_nearest_prop v : I16_MIN <= v <= I16_MAX ->
+  match i16_to_f32 v with
+  | S754_zero _ => v = 0
+  | S754_finite s m e =>
+      2 ^ 23 <= Zpos m < 2 ^ 24 /\ -149 <= e < 0 /\
+      2 * Z.abs ((if s then Zneg m else Zpos m) * I16_MAX - v * 2 ^ (- e)) < I16_MAX
+  | _ => False
+  end.
+Proof.
+  intros Hv. pose proof (pcm_f32_nearest v Hv) as H. unfold f32_nearest_ok in H.
+  destruct (i16_to_f32 v) as [s|s| |s m e]; try discriminate H.
+  - apply Z.eqb_eq. exact H.
+  - apply andb_prop in H as [H H5]. apply andb_prop in H as [H H4].
+    apply andb_prop in H as [H H3]. apply andb_prop in H as [H1 H2].
+    apply Z.leb_le in H1, H4. apply Z.ltb_lt in H2, H3, H5. repeat split; assumption.
+Qed.
+
 (** The WAV write/read composite (minus the container) on a whole signal. *)
 Theorem pcm_roundtrip_list xs :
   Forall (fun v => I16_MIN <= v <= I16_MAX) xs -> f32s_to_i16s (i16s_to_f32s xs) = Some xs.
